@@ -1,6 +1,6 @@
 (* C16 - SortedDeque behaves like an ordered map with append-only insertion. *)
 From Coq Require Import List ZArith Bool.
-From WP Require Import deque.Sorted deque.SortedProofs deque.SortedGone.
+From WP Require Import deque.Sliding deque.Sorted deque.SortedProofs deque.SortedGone deque.SortedOverSliding.
 Import ListNotations.
 Open Scope Z_scope.
 
@@ -62,6 +62,28 @@ Example C16_gone_example :
   end.
 Proof. vm_compute. split; reflexivity. Qed.
 
+(* C16 over C15: the list semantics deque/Sorted.v gives to the underlying SlidingDeque is not
+   only trusted.  For every SortedDeque operation that the list-level model performs, the calls
+   the code makes on self.items (pop_front then advance(first live index or usize::MAX);
+   pop_back repeated while the back is erased; push_back; a write through DerefMut for a middle
+   mark; clear), run on the faithful SlidingDeque model from ANY representation of the list
+   (any consumed prefix), return without panic, keep SlidingDeque's check_rep, and leave the
+   view equal to the list state the Sorted model computes.  The only assumption is that the
+   container holds at most usize::MAX items. *)
+Theorem C16_over_sliding (d : sd item) o l' x :
+  Sliding.check_rep d = true -> (N.of_nat (length (view d)) <= usize_max)%N ->
+  Sorted.step (view d) o = Some (l', x) ->
+  exists d' outs, Sliding.run d (calls (view d) o) = Some (d', outs) /\ Sliding.check_rep d' = true /\ view d' = l'.
+Proof. exact (calls_sliding d o l' x). Qed.
+(* non-vacuity: consumed prefix 1 of 6, tombstone before the last item, pop_last drops both *)
+Example C16_over_sliding_example :
+  let d := {| consumed := 1; cont := [(0, Some 0); (1, Some 10); (2, Some 20); (3, Some 30); (4, None); (5, Some 50)] |} in
+  Sliding.check_rep d = true /\
+  Sorted.step (view d) PopLast = Some ([(1, Some 10); (2, Some 20); (3, Some 30)], OItem (Some (5, Some 50))) /\
+  calls (view d) PopLast = [PopBack; PopBack] /\
+  option_map (fun r => view (fst r)) (Sliding.run d (calls (view d) PopLast)) = Some [(1, Some 10); (2, Some 20); (3, Some 30)].
+Proof. vm_compute. repeat split; reflexivity. Qed.
+
 (* non-vacuity: middle removal, then removals from both ends expose and clean the tombstone *)
 Example C16_example :
   run step [] [Push (1, Some 10); Push (2, Some 20); Push (3, Some 30); Push (4, Some 40);
@@ -87,5 +109,6 @@ Check C16_gone_stays_gone : forall k ops1 ops2 l1,
   forallb (fun o => negb (pushes_key k o)) ops2 = true ->
   forallb (fun x => negb (mentions k x)) (fst (run step l1 ops2)) = true.
 Print Assumptions C16_gone_stays_gone.
+Print Assumptions C16_over_sliding.
 Print Assumptions C16_popped_first_is_gone.
 Print Assumptions C16_popped_last_is_gone.
